@@ -19,8 +19,8 @@ from .common import E1_ASSUMPTIONS, E1_COMPONENTS, viol
 ID = "C06"
 LEVEL = "fault_enumeration"
 TIERS = {
-    "quick": {"shards": 64, "examples": 5, "det_shards": 2},
-    "thorough": {"shards": 512, "examples": 12, "det_shards": 8},
+    "quick": {"shards": 96, "examples": 6, "det_shards": 2},
+    "thorough": {"shards": 640, "examples": 12, "det_shards": 8},
 }
 RULE = ("case = (module, setting, fault set): for each generated valid module, every eligible position (thorough; a "
         "seeded stride of them in the quick tier) of each sampled fault kind {truncate, stray quote, invalid escape, "
